@@ -721,7 +721,8 @@ func (fb *functionBuilder) emitReturn() {
 // emitSelect appends a new "Select" instruction to the function body.
 //
 //	select
-func (fb *functionBuilder) emitSelect() {
+func (fb *functionBuilder) emitSelect(pos *ast.Position) {
+	fb.addPosAndPath(pos)
 	fb.fn.Body = append(fb.fn.Body, runtime.Instruction{Op: runtime.OpSelect})
 }
 
